@@ -18,6 +18,7 @@ static __thread uint32_t t_ticket;
 static __thread const void* t_ticket_lock;
 // per kernel thread (a fiber never migrates between taking a ticket and unlocking)
 static struct {
+  _Atomic int entering;   // about to call lock/trylock, ticket (if any) not recorded yet
   _Atomic int acquiring;  // took a ticket, not yet inside
   _Atomic uint32_t ticket;
   _Atomic int inside;  // between acquisition and unlock
@@ -49,6 +50,7 @@ static void spin_periodic(void) {
   for (i = 0; i < VP_MAX_THREADS && !ok; ++i) {
     if (atomic_load(&thr[i].inside)) ok = 1;
     else if (atomic_load(&thr[i].acquiring) && atomic_load(&thr[i].ticket) == s) ok = 1;
+    else if (atomic_load(&thr[i].entering) && !atomic_load(&thr[i].acquiring)) ok = 1;  // its ticket is not known yet
   }
   if (ok || s != last_s) {
     streak = 0;
@@ -86,31 +88,35 @@ static void* spin_fiber(void* a) {
     if (vp_rand(&s->rng) % 4 == 0) {
       const uint64_t sw = vp_self_switches();
       const long relax = vp_thread_hits(FV_CPU_RELAX);
+      atomic_store(&thr[vp_tid()].entering, 1);
       const int ok = fiber_spinlock_trylock(&sp);
+      if (ok == FIBER_SUCCESS) atomic_store(&thr[vp_tid()].inside, 1);
+      atomic_store(&thr[vp_tid()].entering, 0);
       if (vp_self_switches() != sw || vp_thread_hits(FV_CPU_RELAX) != relax)
         vp_violation("C18", "spin:trylock-waited", "trial %d: fiber %d spun or was switched inside fiber_spinlock_trylock", trial, s->id);
       if (ok == FIBER_SUCCESS) {
-        atomic_store(&thr[vp_tid()].inside, 1);
         vp_add(c_try_ok, 1);
         vp_payload_spin_section(s, 1, 0);
-        atomic_store(&thr[vp_tid()].inside, 0);
         fiber_spinlock_unlock(&sp);
+        atomic_store(&thr[vp_tid()].inside, 0);  // only after the unlock: "inside" must cover the whole time the lock is held
       } else {
         vp_add(c_try_fail, 1);
       }
     } else {
       const long relax = vp_thread_hits(FV_CPU_RELAX);
       atomic_store(&s->where, "C18 fiber_spinlock_lock");
+      atomic_store(&thr[vp_tid()].entering, 1);
       fiber_spinlock_lock(&sp);
       atomic_store(&thr[vp_tid()].inside, 1);
       atomic_store(&thr[vp_tid()].acquiring, 0);
+      atomic_store(&thr[vp_tid()].entering, 0);
       atomic_store(&s->where, (const char*)0);
       if (vp_thread_hits(FV_CPU_RELAX) != relax) vp_add(c_contended, 1);
       const uint32_t mine = t_ticket_lock == &sp ? t_ticket : atomic_load(&sp.state.counters.ticket);
       vp_add(c_lock, 1);
       vp_payload_spin_section(s, 0, mine);
-      atomic_store(&thr[vp_tid()].inside, 0);
       fiber_spinlock_unlock(&sp);
+      atomic_store(&thr[vp_tid()].inside, 0);
     }
     vp_progress();
     if ((vp_rand(&s->rng) & 3) == 0) fiber_yield();
